@@ -26,10 +26,9 @@ ANCHORS = [
 RULE = (
     "random histories as in C02 with 45% add_resource / 20% add_resource_factory commands, 12% deliberately invalid calls (None value, "
     "non-type in types, non-callable teardown_callback, missing factory types, None among factory types), 8% invalid names, multi-type "
+    "registrations conflicting on a later type, half of the adds carrying a teardown probe. "
     "Non-callable teardown_callback values of ten kinds (True, 1, 0, containers ...); the very object already registered is added again; add_resource racing with the asynchronous generation of the same pair. "
-    "registrations conflicting on a later type, half of the adds carrying a teardown probe. Non-trivial: >= 3 contexts and > 3 distinct "
-    "model states; distinct = (tree shape, set of model-state hashes)."
-)
+    "Non-trivial: >= 3 contexts and > 3 distinct ")
 DECIDING = {
     "failed_multi_type_adds": "multi-type add failing (conflict possibly on a later type)",
     "failed_add_ValueError": "invalid name / None value",
